@@ -96,6 +96,16 @@ CHECKS: dict[str, dict[str, str]] = {
         "technique": "TLA+ transcription of the legacy/BIP143/BIP341 preimages; TLC model-checks the commitment matrix and validates recorded digests",
         "design_ref": "DESIGN.md section 4 C09",
     },
+    "C10": {
+        "text": ("Module ScriptSigs is Bitcoin Core's VerifyScript with the signature opcodes (EvalChecksig, CHECKMULTISIG, P2WPKH, taproot key and script paths) over the "
+                 "specification's own signature hashes, ECDSA and BIP340; TLC judges every input of every transaction with it and the verdict is compared with the library "
+                 "engine's. Transactions: every script type the library's signer completes, alone and mixed, x every signature hash type, built as PSBTs, signed, "
+                 "finalized and extracted (standard, consensus and no flags); every single change to outputs, sequences, spent amounts, lock time, version, outpoints, "
+                 "witness signatures (bytes appended, last byte changed); wsh(miniscript) spends from the library's satisfier; BIP322 simple signatures and proofs of "
+                 "funds (incl. a forged first-input utxo); Bitcoin message signatures for their own and for other addresses."),
+        "technique": "TLA+ specification of script verification with signature opcodes; the library engine's verdicts on signed and tampered transactions validated as traces by TLC",
+        "design_ref": "DESIGN.md section 4 C10",
+    },
     "C11": {
         "text": ("The Combiner is specified on the wire: a PSBT is its key-value maps and the result of a combine is, map by map, the union of the operands' pairs "
                  "(tx_modifiable: modifiable bits AND, the others OR); TLC model-checks the coordinator/signers machine (lossless, nothing invented, idempotent, only "
@@ -137,6 +147,16 @@ CHECKS: dict[str, dict[str, str]] = {
                  "addresses of BIP32 key wallets, descriptor wallets with arbitrary branch labels and script-template wallets in three embeddings."),
         "technique": "TLA+ descriptor specification (BIP32 derivation + script templates + BIP380 checksum) evaluated by TLC; recorded derivations, parses and positions validated as traces",
         "design_ref": "DESIGN.md section 4 C14",
+    },
+    "C15": {
+        "text": ("Module Miniscript is BIP379's fragment-to-script table and the spending condition of an expression; the harness writes expressions as trees (46 "
+                 "hand-written ones covering every fragment and wrapper plus randomly composed ones the library's type system accepts) and TLC compares the compiled "
+                 "script and its predicted size with the specification's compilation; read-back and re-parse are recorded. For scenarios of available signatures, "
+                 "preimages and (version, lock time, sequence) classes, a satisfaction is produced only when the specification's spending condition holds, and when "
+                 "produced the specification's own engine (ScriptSigs) accepts the spend and the witness stays within the predicted items, bytes and executed ops "
+                 "(counted by the specification's machine); the psbt route through miniscript_solver is run with two inputs."),
+        "technique": "TLA+ miniscript compilation/condition specification and script engine; recorded compilations and satisfactions validated as traces by TLC",
+        "design_ref": "DESIGN.md section 4 C15",
     },
     "C16": {
         "text": ("BIP327 is specified generically in curve and hash; TLC runs a whole session (nonce round, signing round, verification of every partial signature, "
